@@ -18,9 +18,18 @@ from .. import core
 LEVEL = "model_checking"
 
 CROSS_N = 2046 * 2046          # sign x 1023 codes, both axes of velocity subtype 1
-PAR = 6                        # TLC / harness pipelines running at the same time
+PAR = {"quick": 4, "thorough": 8}   # TLC / harness pipelines running at the same time
+XMX = "3g"
 
 REJECT = re.compile(r'<<"REJECT", (\d+), <<(.*)>>>>')
+KC_C = re.compile(r'"c":(\{[^}]*\})')
+KC_K = re.compile(r'"k":"([a-z0-9]+)"')
+
+
+def class_codes(inner):
+    """(class, codes) of a vector line as text, without parsing the whole line."""
+    k, c = KC_K.search(inner), KC_C.search(inner)
+    return (k.group(1), c.group(1)) if k and c else None
 
 
 # ------------------------------------------------------------------ signatures
@@ -45,12 +54,8 @@ def signature(ev, field):
         case = _mov_segment(c.get("mov", -1))
     elif field == "selalt62":
         case = "code1" if c.get("alt") == 1 else "other"
-    elif field == "rate50":
-        case = "mag511" if c.get("rate") == 511 else "other"
-    elif field == "baro60":
-        case = "neg511" if (c.get("bsg"), c.get("baro")) == (1, 511) else "other"
-    elif field == "ivv60":
-        case = "neg511" if (c.get("vsg"), c.get("ivv")) == (1, 511) else "other"
+    elif field == "label05":
+        case = f"df{c.get('df')}"
     elif field in ("outcome", "binding"):
         case = f"{ev['k']}:{ev.get('out')}"
     return {"field": field, "case": case}
@@ -60,7 +65,7 @@ def signature(ev, field):
 
 def gen_vectors(run, path, env, timeout=1800):
     """Run the generator; write the vectors as ndjson; return (TlcResult, n, n_distinct, obligations)."""
-    r = core.tlc_ok("gen/Gen_FieldCodec", env=env, timeout=timeout, xmx="4g")
+    r = core.tlc_ok("gen/Gen_FieldCodec", env=env, timeout=timeout, xmx=XMX)
     n = 0
     oblig = 0
     seen = set()
@@ -70,13 +75,16 @@ def gen_vectors(run, path, env, timeout=1800):
                 inner = json.loads(line)
                 g.write(inner + "\n")
                 n += 1
-                seen.add(hash(inner))
+                kc = class_codes(inner)
+                if kc is None:
+                    raise core.ToolError("vector without class/codes: " + inner[:200])
+                seen.add(hash(kc))                               # distinct = class + codes
                 m = re.search(r'"n":(\d+)', inner)
                 oblig += int(m.group(1)) if m else 0
     if n == 0:
         raise core.ToolError("generator produced no vectors\n" + r.out[-2000:])
     r.out = r.out[-4000:]            # do not keep hundreds of MB around
-    return r, n, len(seen), oblig
+    return r, n, seen, oblig
 
 
 def replay_and_validate(run, vec_path, trace_path, n):
@@ -85,7 +93,7 @@ def replay_and_validate(run, vec_path, trace_path, n):
     got = int((p.stdout or "0").strip().splitlines()[-1])
     if got != n:
         raise core.ToolError(f"harness wrote {got} events for {n} vectors")
-    rejected, r = core.validate("trace/Trace_FieldCodec", trace_path, n_events=n, timeout=3600, xmx="5g")
+    rejected, r = core.validate("trace/Trace_FieldCodec", trace_path, n_events=n, timeout=3600, xmx=XMX)
     fails = []
     for line in r.out.splitlines():
         m = REJECT.match(line)
@@ -118,14 +126,21 @@ def report_fails(run, fails, vec_path, trace_path, stats):
     idx = [i for i, _ in fails]
     evs = pick_lines(trace_path, idx)
     vecs = pick_lines(vec_path, idx)
+    per_sig = stats.setdefault("per_sig", Counter())
     for i, fields in fails:
         ev = evs[i]
         for f in fields:
             sig = signature(ev, f)
             stats["rejected_by_field"][f] += 1
-            run.report(sig, {"vector": vecs[i], "event": ev, "failing": fields,
-                             "explain": f"obligation '{f}' of FieldCodec.tla does not hold for the values "
-                                        f"decoded from frame {ev.get('hex')}"})
+            key = (sig["field"], sig["case"])
+            per_sig[key] += 1
+            if per_sig[key] <= 5:
+                rep = {"vector": vecs[i], "event": ev, "failing": fields,
+                       "explain": f"obligation '{f}' of FieldCodec.tla does not hold for the values "
+                                  f"decoded from frame {ev.get('hex')}"}
+            else:                       # Run.finish keeps five cases per signature
+                rep = {"hex": ev.get("hex")}
+            run.report(sig, rep)
 
 
 def one_part(run, name, env, stats, keep_sample=False):
@@ -155,7 +170,7 @@ def check(run):
     core.build_rs("c03")
 
     # M: the independent encoder is internally consistent (tool error if not)
-    m = core.tlc_ok("mc/MC_FieldCodec", timeout=900)
+    m = core.tlc_ok("mc/MC_FieldCodec", timeout=900, xmx=XMX)
     run.add_tlc(m)
 
     # G + V, per-field sweeps: one generator run per fill variant
@@ -174,20 +189,20 @@ def check(run):
             jobs.append((f"cross{s}", {"SEED": run.seed, "REPS": 1, "MODE": "cross", "FROM": lo, "TO": hi}))
 
     parts = []
-    with cf.ThreadPoolExecutor(max_workers=PAR) as ex:
+    with cf.ThreadPoolExecutor(max_workers=PAR[run.tier]) as ex:
         futs = [ex.submit(one_part, run, name, env, stats) for name, env in jobs]
         for fu in futs:
             parts.append(fu.result())
 
     evaluations = 0
-    distinct = 0
+    distinct = set()
     obligations = 0
     samples = []
     for part in parts:
         run.add_tlc(part["g"])
         run.add_tlc(part["v"])
         evaluations += part["n"]
-        distinct += part["distinct"]
+        distinct |= part.pop("distinct")
         obligations += part["oblig"]
         if part["name"].startswith("fields"):
             summarise_fields(part, stats)
@@ -204,16 +219,21 @@ def check(run):
 
     # label of DF20 payloads laid out as BDS 0,5: both outcomes must have been exercised
     labelled = unlabelled = 0
+    other_df20 = other_labelled = 0
     for part in parts:
         if part["name"].startswith("fields"):
             with open(part["trc"]) as f:
                 for line in f:
-                    if '"k":"l05"' in line:
-                        ev = json.loads(line)
-                        if ev["v"]["bds05"][1] == 1:
-                            labelled += 1
-                        else:
-                            unlabelled += 1
+                    if '"bds05":[' not in line:
+                        continue
+                    ev = json.loads(line)
+                    lab = ev["v"]["bds05"][1] == 1
+                    if ev["k"] == "l05":
+                        labelled += lab
+                        unlabelled += not lab
+                    elif ev["c"].get("df") == 20:
+                        other_df20 += 1
+                        other_labelled += lab
     if labelled == 0 or unlabelled == 0:
         raise core.ToolError("DF20/BDS 0,5 labelling: one of the two outcomes was never produced "
                              f"(labelled={labelled}, unlabelled={unlabelled})")
@@ -221,7 +241,7 @@ def check(run):
     run.cov.update({
         "exhaustive": True,
         "evaluations": evaluations,
-        "distinct_nontrivial": distinct,
+        "distinct_nontrivial": len(distinct),
         "obligations_checked": obligations,
         "traces_validated_against_impl": len(parts),
         "events_validated": evaluations,
@@ -229,7 +249,8 @@ def check(run):
         "vectors_per_sweep": dict(stats["vectors_per_sweep"]),
         "obligations_per_sweep": dict(stats["obligations_per_sweep"]),
         "rejected_obligations_by_field": dict(stats["rejected_by_field"]),
-        "df20_bds05": {"labelled": labelled, "not_labelled": unlabelled},
+        "df20_bds05": {"laid_out_as_bds05_labelled": labelled, "laid_out_as_bds05_not_labelled": unlabelled,
+                       "other_df20_payloads": other_df20, "other_df20_payloads_labelled": other_labelled},
         "samples": samples,
         "rule": "TLC enumerates, per field, every code of the field (all 4096 ME altitude codes for a "
                 "barometric and a GNSS type code, all 4096 AC codes with M=0 and all 4096 identity codes "
@@ -277,9 +298,15 @@ def replay(run, path):
     evs = core.read_ndjson(trc)
     for ev in evs:
         print(f"replayed {ev['hex']} ({ev['s']}): out={ev['out']} v={json.dumps(ev['v'])}")
-    run.cov.update({"evaluations": len(vecs), "distinct_nontrivial": len({json.dumps(x, sort_keys=True) for x in vecs}),
-                    "traces_validated_against_impl": 1, "states": max(1, v.distinct),
-                    "transitions": max(1, v.generated), "samples": evs[:3],
-                    "rule": "replay of the vectors of " + os.path.basename(path),
-                    "rejected_obligations_by_field": dict(stats["rejected_by_field"])})
-    return run.finish()
+    # no Run.finish() here: it would write evidence and replay files named like those of a
+    # quick run and overwrite the file being replayed
+    for fid, (f, n, rep) in sorted(run.known.items()):
+        print(f"KNOWN-FINDING: property={run.prop} {f['what']} [{fid}; {n} case(s) this replay]")
+    sigs = sorted({json.dumps(sig, sort_keys=True) for sig, _ in run.violations})
+    for sg in sigs:
+        print(f"rejected: {sg}")
+    if run.violations:
+        print(f"VIOLATION property={run.prop} replay={path}")
+        return 1
+    print(f"OK property={run.prop} replay={path} ({len(vecs)} case(s) accepted)")
+    return 0
